@@ -16,10 +16,6 @@ void HQ_doDispatchItem__V(HQ *, ItemBase *); void HQ_doDispatchItem__W(HQ *, Ite
 #define FN_PTR(f) ((DispTag)(f))
 #define SRC_ASSERT(e) __CPROVER_assert(self != &g_S0 || (e), "assert() in the source (eventqueue_i.h) holds")
 #define IS_W(p) ((void *)(p) == (void *)&g_S0)
-/* the slot's type tag is written through a hook (mode exc ties the ghost 'which type is live' to it) */
-#ifndef MODE_EXC
-#define SLOT_SET_dtor(s, v) ((s)->dtor = (v))
-#endif
 
 /* ------------------------------------------------------------------ C14: a stored item is read as the type it was stored as (or as its base) */
 #define FN_ENTRY_Slot_get__ItemV __CPROVER_assert(!IS_W(self) || g_kind == 1, "C14: a slot is read as QueuedItem<tuple<VArg>> only when it holds one (events of other prototypes are left untouched)")
